@@ -20,6 +20,22 @@
    OutOfFuel (for every fuel = the real code does not terminate: hang or fatal stack overflow) /
    Unsupported (outside the modelled fragment; see the list below).
 
+   ILL-FORMED CODE (left over from abandoned parser alternatives) is an ERROR since the repair
+   "ill-formed byte-code makes the VM report an error": stackPop on an empty stack records E3
+   (unless an error is already recorded), yields a null and THE INSTRUCTION GOES ON; the recorded
+   error (frame field fr_err) is acted upon at the next `if ctx.Error != nil { return }` of that
+   instruction or, after one more numOpCountAdd(1), at the next loop head.  The same field models
+   `invoke` of a non-function, which records its error without returning.  store / store.local on an
+   empty stack, dice.set* / dice without a dice state, block.pop / fstr.block.pop without an open block
+   return E3 at once; a dice result without a mark.detail appends an empty span.
+   WHERE THE CODE STILL PANICS (explicit `Panic`): a `code.Value.(T)` assertion on a nil / wrongly typed
+   operand (jmp je jne je.dup push.arr push.dict invoke popn ld.fs: IntType; push.str ld ld.d ld.raw store
+   store.local attr.get attr.set: string; push.func push.computed: *VMValue; mark.detail: BufferSpan; st.mod:
+   StInfo — for je/je.dup/jne only when the jump is taken); a jump that makes opIndex negative (e.code[opIndex]);
+   st.mod with Op "-" on a non-number while a CallbackSt is installed (OpNegation() is nil, then .Clone());
+   push.def_expr whose last span lies outside the source text; stackPush at top = 1000 (unreachable: the
+   loop head stops there); jumping beyond the end simply ends the run.
+
    DELIBERATELY UNSUPPORTED (outcome `Unsupported why`)
      "float"            push.flt, toFloat(): no float value exists in this version
      "pow range"        int ^ int whose exact result (or an operand) exceeds 2^53, or 0 ^ negative
@@ -144,7 +160,8 @@ Record frame := {
   fr_wod : wodstate;
   fr_dc : dcstate;
   fr_details : list (Z * Z);        (* spans of `details`, newest first *)
-  fr_src : option string            (* ctx.parser.data: source (main), Expr (computed), nil (function) *)
+  fr_src : option string;           (* ctx.parser.data: source (main), Expr (computed), nil (function) *)
+  fr_err : option eclass            (* ctx.Error of the running context, set but not yet acted upon *)
 }.
 
 Definition new_frame (c : code) (src : option string) : frame :=
@@ -152,7 +169,7 @@ Definition new_frame (c : code) (src : option string) : frame :=
      fr_blocks := []; fr_fblocks := []; fr_dice := [];
      fr_wod := {| w_pool := 0; w_points := 0; w_threshold := 0; w_isge := false |};
      fr_dc := {| c_pool := 0; c_points := 0 |};
-     fr_details := []; fr_src := src |}.
+     fr_details := []; fr_src := src; fr_err := None |}.
 
 Record ctx := { c_attrs : N; c_ops : Z }.
 
@@ -197,31 +214,39 @@ Definition rbind {A B} (r : R A) (k : A -> world -> R B) : R B :=
 Definition fr_set_stack (fr : frame) (live dead : list value) (top : Z) (last : lastpop) : frame :=
   {| fr_code := fr_code fr; fr_pc := fr_pc fr; fr_live := live; fr_dead := dead; fr_top := top; fr_last := last;
      fr_blocks := fr_blocks fr; fr_fblocks := fr_fblocks fr; fr_dice := fr_dice fr; fr_wod := fr_wod fr; fr_dc := fr_dc fr;
-     fr_details := fr_details fr; fr_src := fr_src fr |}.
+     fr_details := fr_details fr; fr_src := fr_src fr; fr_err := fr_err fr |}.
 Definition fr_set_pc (fr : frame) (pc : Z) : frame :=
   {| fr_code := fr_code fr; fr_pc := pc; fr_live := fr_live fr; fr_dead := fr_dead fr; fr_top := fr_top fr; fr_last := fr_last fr;
      fr_blocks := fr_blocks fr; fr_fblocks := fr_fblocks fr; fr_dice := fr_dice fr; fr_wod := fr_wod fr; fr_dc := fr_dc fr;
-     fr_details := fr_details fr; fr_src := fr_src fr |}.
+     fr_details := fr_details fr; fr_src := fr_src fr; fr_err := fr_err fr |}.
 Definition fr_set_blocks (fr : frame) (b fb : list Z) : frame :=
   {| fr_code := fr_code fr; fr_pc := fr_pc fr; fr_live := fr_live fr; fr_dead := fr_dead fr; fr_top := fr_top fr; fr_last := fr_last fr;
      fr_blocks := b; fr_fblocks := fb; fr_dice := fr_dice fr; fr_wod := fr_wod fr; fr_dc := fr_dc fr;
-     fr_details := fr_details fr; fr_src := fr_src fr |}.
+     fr_details := fr_details fr; fr_src := fr_src fr; fr_err := fr_err fr |}.
 Definition fr_set_dice (fr : frame) (d : list dstate) : frame :=
   {| fr_code := fr_code fr; fr_pc := fr_pc fr; fr_live := fr_live fr; fr_dead := fr_dead fr; fr_top := fr_top fr; fr_last := fr_last fr;
      fr_blocks := fr_blocks fr; fr_fblocks := fr_fblocks fr; fr_dice := d; fr_wod := fr_wod fr; fr_dc := fr_dc fr;
-     fr_details := fr_details fr; fr_src := fr_src fr |}.
+     fr_details := fr_details fr; fr_src := fr_src fr; fr_err := fr_err fr |}.
 Definition fr_set_wod (fr : frame) (x : wodstate) : frame :=
   {| fr_code := fr_code fr; fr_pc := fr_pc fr; fr_live := fr_live fr; fr_dead := fr_dead fr; fr_top := fr_top fr; fr_last := fr_last fr;
      fr_blocks := fr_blocks fr; fr_fblocks := fr_fblocks fr; fr_dice := fr_dice fr; fr_wod := x; fr_dc := fr_dc fr;
-     fr_details := fr_details fr; fr_src := fr_src fr |}.
+     fr_details := fr_details fr; fr_src := fr_src fr; fr_err := fr_err fr |}.
 Definition fr_set_dc (fr : frame) (x : dcstate) : frame :=
   {| fr_code := fr_code fr; fr_pc := fr_pc fr; fr_live := fr_live fr; fr_dead := fr_dead fr; fr_top := fr_top fr; fr_last := fr_last fr;
      fr_blocks := fr_blocks fr; fr_fblocks := fr_fblocks fr; fr_dice := fr_dice fr; fr_wod := fr_wod fr; fr_dc := x;
-     fr_details := fr_details fr; fr_src := fr_src fr |}.
+     fr_details := fr_details fr; fr_src := fr_src fr; fr_err := fr_err fr |}.
 Definition fr_set_details (fr : frame) (d : list (Z * Z)) : frame :=
   {| fr_code := fr_code fr; fr_pc := fr_pc fr; fr_live := fr_live fr; fr_dead := fr_dead fr; fr_top := fr_top fr; fr_last := fr_last fr;
      fr_blocks := fr_blocks fr; fr_fblocks := fr_fblocks fr; fr_dice := fr_dice fr; fr_wod := fr_wod fr; fr_dc := fr_dc fr;
-     fr_details := d; fr_src := fr_src fr |}.
+     fr_details := d; fr_src := fr_src fr; fr_err := fr_err fr |}.
+
+Definition fr_set_err (fr : frame) (e : option eclass) : frame :=
+  {| fr_code := fr_code fr; fr_pc := fr_pc fr; fr_live := fr_live fr; fr_dead := fr_dead fr; fr_top := fr_top fr; fr_last := fr_last fr;
+     fr_blocks := fr_blocks fr; fr_fblocks := fr_fblocks fr; fr_dice := fr_dice fr; fr_wod := fr_wod fr; fr_dc := fr_dc fr;
+     fr_details := fr_details fr; fr_src := fr_src fr; fr_err := e |}.
+(* errInvalidCode: "E3:无效的表达式" unless an error is already recorded *)
+Definition err_invalid (fr : frame) : frame :=
+  match fr_err fr with Some _ => fr | None => fr_set_err fr (Some EOther) end.
 
 Definition w_set_heap (w : world) (h : heap) : world :=
   {| w_heap := h; w_pcg := w_pcg w; w_st := w_st w; w_chain := w_chain w |}.
@@ -242,11 +267,12 @@ Definition w_set_self_ops (w : world) (ops : Z) : world :=
   end.
 
 (* ------------------------------------------------------------------ operand stack *)
-(* stackPop: None = index -1 (panic) *)
-Definition pop (fr : frame) : option (value * frame) :=
+(* stackPop.  On an empty stack (ill-formed code) it records E3, yields a fresh null and the
+   instruction goes on; lastPop then points to that null, not into the stack *)
+Definition pop (fr : frame) : value * frame :=
   match fr_live fr with
-  | [] => None
-  | v :: l => Some (v, fr_set_stack fr l (v :: fr_dead fr) (fr_top fr - 1) (LSlot (fr_top fr - 1)))
+  | [] => (VNull, fr_set_stack (err_invalid fr) (fr_live fr) (fr_dead fr) (fr_top fr) (LVal VNull))
+  | v :: l => (v, fr_set_stack fr l (v :: fr_dead fr) (fr_top fr - 1) (LSlot (fr_top fr - 1)))
   end.
 (* stackPush: None = index 1000 (panic; unreachable: the loop head stops at top = 1000) *)
 Definition push (v : value) (fr : frame) : option frame :=
@@ -254,21 +280,15 @@ Definition push (v : value) (fr : frame) : option frame :=
   else Some (fr_set_stack fr (v :: fr_live fr) (tl (fr_dead fr)) (fr_top fr + 1) (fr_last fr)).
 
 (* stackPopN(n): n <= 0 pops nothing and leaves lastPop alone; otherwise lastPop = clone of the deepest *)
-Fixpoint pop_n_aux (n : nat) (fr : frame) (acc : list value) : option (list value * frame) :=
+Fixpoint pop_n_aux (n : nat) (fr : frame) (acc : list value) : list value * frame :=
   match n with
-  | O => Some (acc, fr)
-  | S n' => match pop fr with
-            | None => None
-            | Some (v, fr') => pop_n_aux n' fr' (v :: acc)
-            end
+  | O => (acc, fr)
+  | S n' => let '(v, fr') := pop fr in pop_n_aux n' fr' (v :: acc)
   end.
-Definition pop_n (n : Z) (fr : frame) : option (list value * frame) :=
-  if n <=? 0 then Some ([], fr)
-  else match pop_n_aux (Z.to_nat n) fr [] with
-       | None => None
-       | Some (l, fr') =>
-         Some (l, fr_set_stack fr' (fr_live fr') (fr_dead fr') (fr_top fr') (match l with v :: _ => LVal v | [] => fr_last fr' end))
-       end.
+Definition pop_n (n : Z) (fr : frame) : list value * frame :=
+  if n <=? 0 then ([], fr)
+  else let '(l, fr') := pop_n_aux (Z.to_nat n) fr [] in
+       (l, fr_set_stack fr' (fr_live fr') (fr_dead fr') (fr_top fr') (match l with v :: _ => LVal v | [] => fr_last fr' end)).
 
 (* e.top = newTop (block.pop, ld.fs): downwards the slots become stale, upwards stale slots come back.
    inl why = not expressible *)
@@ -726,11 +746,11 @@ Section Ops.
   Definition push_range (a b : value) (w : world) : R value :=
     match a, b with
     | VInt x, VInt y =>
-      let len := wrap64 (y - x) in
-      let '(step, len) := if len <? 0 then (-1, wrap64 (- len)) else (1, len) in
+      let '(step, len) := if x <=? y then (1, wrap64 (y - x)) else (-1, wrap64 (x - y)) in
+      if (len <? 0) || (511 <? len) then RFail ELimit w     (* a wrapped difference is negative *)
+      else
       let len := wrap64 (len + 1) in
       if 512 <? len then RFail ELimit w
-      else if len <? 0 then RPanic "makeslice: len out of range"
       else match range_loop 513 x step y 0 len [] with
            | None => RPanic "index out of range (push.range)"
            | Some l => new_arr l w
@@ -868,11 +888,10 @@ End Ops.
 
 (* ------------------------------------------------------------------ one instruction *)
 Inductive sresult :=
-| SNext (m : machine)                  (* fall out of the switch: the loop adds 1 to opIndex *)
+| SNext (m : machine)                  (* fall out of the switch: the loop adds 1 to opIndex; a recorded
+                                          error (fr_err) stops the run at the next loop head, after counting *)
 | SStop (m : machine)                  (* halt / ret *)
 | SFail (e : eclass) (m : machine)     (* ctx.Error set and `return` *)
-| SFailLate (e : eclass) (m : machine) (* ctx.Error set WITHOUT return (invoke of a non-function): the loop
-                                          head still counts the next instruction before it stops *)
 | SPanic (what : string)
 | SFuel
 | SUnsup (what : string).
@@ -887,26 +906,25 @@ Section Step.
   Definition mk (fr : frame) (w : world) : machine := {| m_fr := fr; m_w := w |}.
 
   Definition with_pop (fr : frame) (k : value -> frame -> sresult) : sresult :=
-    match pop fr with
-    | None => SPanic "stack index -1"
-    | Some (v, fr') => k v fr'
-    end.
+    let '(v, fr') := pop fr in k v fr'.
   (* stackPop2: returns (deeper, top) *)
   Definition with_pop2 (fr : frame) (k : value -> value -> frame -> sresult) : sresult :=
     with_pop fr (fun v2 fr1 => with_pop fr1 (fun v1 fr2 => k v1 v2 fr2)).
   Definition with_pop_n (n : Z) (fr : frame) (k : list value -> frame -> sresult) : sresult :=
-    match pop_n n fr with
-    | None => SPanic "stack index -1"
-    | Some (l, fr') => k l fr'
-    end.
+    let '(l, fr') := pop_n n fr in k l fr'.
+  (* `if ctx.Error != nil { return }` *)
+  Definition check_err (fr : frame) (w : world) (k : sresult) : sresult :=
+    match fr_err fr with Some e => SFail e (mk fr w) | None => k end.
   Definition do_push (v : value) (fr : frame) (w : world) : sresult :=
     match push v fr with
     | None => SPanic "stack index 1000"
     | Some fr' => SNext (mk fr' w)
     end.
+  (* a helper that set ctx.Error (RFail) overwrites whatever was recorded; after a helper that
+     succeeded the VM tests ctx.Error, which may still hold the E3 of an empty-stack pop *)
   Definition lift {A} (r : R A) (fr : frame) (k : A -> world -> sresult) : sresult :=
     match r with
-    | ROk a w => k a w
+    | ROk a w => check_err fr w (k a w)
     | RFail e w => SFail e (mk fr w)
     | RPanic s => SPanic s
     | RFuel => SFuel
@@ -924,15 +942,20 @@ Section Step.
   (* diceStates[diceStateIndex] = f(...) *)
   Definition upd_dice (fr : frame) (w : world) (f : dstate -> dstate) : sresult :=
     match fr_dice fr with
-    | [] => SPanic "diceStates index -1"
+    | [] => SPanic "diceStates index -1"        (* unreachable: need_dice has tested it *)
     | d :: r => SNext (mk (fr_set_dice fr (f d :: r)) w)
     end.
-  (* details[len(details)-1].Ret = ret; ...; stackPush(ret) *)
-  Definition dice_result (z : Z) (fr : frame) (w : world) : sresult :=
-    match fr_details fr with
-    | [] => SPanic "details index -1"
-    | _ => do_push (VInt z) fr w
+  (* if diceStateIndex < 0 { errInvalidCode(); return } *)
+  Definition need_dice (fr : frame) (w : world) (k : sresult) : sresult :=
+    match fr_dice fr with
+    | [] => let fr' := err_invalid fr in SFail (match fr_err fr' with Some e => e | None => EOther end) (mk fr' w)
+    | _ => k
     end.
+  (* details[len(details)-1].Ret = ret; ...; stackPush(ret) *)
+  (* lastDetail(): an empty span is appended when no mark.detail preceded *)
+  Definition last_detail (fr : frame) : frame :=
+    match fr_details fr with [] => fr_set_details fr [(0, 0)] | _ => fr end.
+  Definition dice_result (z : Z) (fr : frame) (w : world) : sresult := do_push (VInt z) (last_detail fr) w.
   Definition add_ops (w : world) (count : Z) : world * bool :=
     let '(ops', over) := ops_add cfg (c_ops (w_self w)) count in (w_set_self_ops w ops', over).
 
@@ -952,7 +975,8 @@ Section Step.
     | OpPushFlt => SUnsup "float"
     | OpPushStr => arg_str o (fun s => do_push (VStr s) fr w)
     | OpPushArr =>
-      arg_int o (fun n => with_pop_n n fr (fun l fr1 => lift (new_arr l w) fr1 (fun v w1 => do_push v fr1 w1)))
+      arg_int o (fun n => with_pop_n n fr (fun l fr1 =>
+        let '(id, h) := alloc_arr l (w_heap w) in do_push (VArr id) fr1 (w_set_heap w h)))
     | OpPushDict =>
       arg_int o (fun n => with_pop_n (wrap64 (n * 2)) fr (fun l fr1 =>
         match dict_of l [] with
@@ -985,16 +1009,13 @@ Section Step.
       else match push (VInt 100) fr with
            | None => SPanic "stack index 1000"
            | Some fr1 =>
-             match fr_src fr1, fr_details fr1 with
-             | None, _ | _, [] => SNext (mk fr1 w)
-             | Some src, (b, e) :: _ =>
+             (* the rest only rewrites the detail text; what is left of it here is the slice expression *)
+             match fr_src fr1, fr_details fr1, fr_dice fr1 with
+             | None, _, _ | _, [], _ | _, _, [] => SNext (mk fr1 w)
+             | Some src, (b, e) :: _, _ :: _ =>
                match substring_b (bytes_of src) b e with
                | None => SPanic "slice bounds out of range (push.def_expr)"
-               | Some t => if has_adv t then SNext (mk fr1 w)
-                           else match fr_dice fr1 with
-                                | [] => SPanic "diceStates index -1"
-                                | _ => SNext (mk fr1 w)
-                                end
+               | Some _ => SNext (mk fr1 w)
                end
              end
            end
@@ -1007,7 +1028,7 @@ Section Step.
         match f with
         | VFunc fid => lift (func_invoke call E fid args w) fr2 (fun v w1 => do_push v fr2 w1)
         | VNative name self => lift (native_call call E name self args w) fr2 (fun v w1 => do_push v fr2 w1)
-        | _ => SFailLate ECall (mk fr2 w)
+        | _ => SNext (mk (fr_set_err fr2 (Some ECall)) w)        (* ctx.Error = ...; no return *)
         end)))
 
     | OpItemGet =>
@@ -1017,7 +1038,10 @@ Section Step.
         lift (item_set obj idx val w) fr2 (fun _ w1 => SNext (mk fr2 w1))))
     | OpAttrSet =>
       with_pop2 fr (fun val obj fr1 => arg_str o (fun name =>
-        lift (attr_set obj name val w) fr1 (fun _ w1 => SNext (mk fr1 w1))))
+        match attr_set obj name val w with
+        | RFail _ w1 => SFail (match fr_err fr1 with Some e => e | None => EType end) (mk fr1 w1)   (* ret == nil *)
+        | r => lift r fr1 (fun _ w1 => SNext (mk fr1 w1))
+        end))
     | OpAttrGet =>
       with_pop fr (fun obj fr1 => arg_str o (fun name =>
         lift (attr_get call rfuel E obj name w) fr1 (fun r w1 =>
@@ -1064,13 +1088,11 @@ Section Step.
     | OpLdRaw => arg_str o (fun name => lift (load_name call E name true w) fr (fun v w1 => do_push v fr w1))
     | OpLdD =>
       arg_str o (fun name =>
-        match fr_details fr with
-        | [] => SPanic "details index -1"
-        | _ => lift (load_name call E name false w) fr (fun v w1 => do_push v fr w1)
-        end)
+        let fr0 := last_detail fr in
+        lift (load_name call E name false w) fr0 (fun v w1 => do_push v fr0 w1))
     | OpStore | OpStoreLocal =>
       match fr_live fr with
-      | [] => SPanic "stack index -1"
+      | [] => SFail EOther (mk (err_invalid fr) w)           (* e.top <= 0: errInvalidCode(); return *)
       | v :: _ => arg_str o (fun name => SNext (mk fr (store_name name v w)))
       end
 
@@ -1093,7 +1115,11 @@ Section Step.
 
     | OpAdd | OpSub | OpMul | OpDiv | OpMod | OpPow | OpNullCoalescing
     | OpLt | OpLe | OpEq | OpNe | OpGe | OpGt | OpBitAnd | OpBitOr =>
-      with_pop2 fr (fun v1 v2 fr1 => lift (bin_op rfuel E (i_op ins) v1 v2 w) fr1 (fun v w1 => do_push v fr1 w1))
+      with_pop2 fr (fun v1 v2 fr1 =>
+        match bin_op rfuel E (i_op ins) v1 v2 w, fr_err fr1 with
+        | RFail EType w1, Some e => SFail e (mk fr1 w1)      (* ret == nil with ctx.Error already set *)
+        | r, _ => lift r fr1 (fun v w1 => do_push v fr1 w1)
+        end)
     | OpPos =>
       with_pop fr (fun v fr1 => match v with VInt z => do_push v fr1 w | _ => SFail EType (mk fr1 w) end)
     | OpNeg =>
@@ -1101,30 +1127,30 @@ Section Step.
 
     | OpDiceInit => SNext (mk (fr_set_dice fr (dstate0 :: fr_dice fr)) w)
     | OpDiceSetTimes =>
-      with_pop fr (fun v fr1 =>
+      need_dice fr w (with_pop fr (fun v fr1 =>
         match v with
         | VInt t => if t <=? 0 then SFail EDice (mk fr1 w)
                     else upd_dice fr1 w (fun d => {| d_times := t; d_keep := d_keep d; d_low := d_low d; d_high := d_high d; d_min := d_min d; d_max := d_max d |})
         | _ => SFail EDice (mk fr1 w)
-        end)
+        end))
     | OpDiceSetKeepLow =>
-      with_pop fr (fun v fr1 => with_int v fr1 w (fun n =>
-        upd_dice fr1 w (fun d => {| d_times := d_times d; d_keep := 1; d_low := n; d_high := d_high d; d_min := d_min d; d_max := d_max d |})))
+      need_dice fr w (with_pop fr (fun v fr1 => with_int v fr1 w (fun n =>
+        upd_dice fr1 w (fun d => {| d_times := d_times d; d_keep := 1; d_low := n; d_high := d_high d; d_min := d_min d; d_max := d_max d |}))))
     | OpDiceSetKeepHigh =>
-      with_pop fr (fun v fr1 => with_int v fr1 w (fun n =>
-        upd_dice fr1 w (fun d => {| d_times := d_times d; d_keep := 2; d_low := d_low d; d_high := n; d_min := d_min d; d_max := d_max d |})))
+      need_dice fr w (with_pop fr (fun v fr1 => with_int v fr1 w (fun n =>
+        upd_dice fr1 w (fun d => {| d_times := d_times d; d_keep := 2; d_low := d_low d; d_high := n; d_min := d_min d; d_max := d_max d |}))))
     | OpDiceSetDropLow =>
-      with_pop fr (fun v fr1 => with_int v fr1 w (fun n =>
-        upd_dice fr1 w (fun d => {| d_times := d_times d; d_keep := 3; d_low := n; d_high := d_high d; d_min := d_min d; d_max := d_max d |})))
+      need_dice fr w (with_pop fr (fun v fr1 => with_int v fr1 w (fun n =>
+        upd_dice fr1 w (fun d => {| d_times := d_times d; d_keep := 3; d_low := n; d_high := d_high d; d_min := d_min d; d_max := d_max d |}))))
     | OpDiceSetDropHigh =>
-      with_pop fr (fun v fr1 => with_int v fr1 w (fun n =>
-        upd_dice fr1 w (fun d => {| d_times := d_times d; d_keep := 4; d_low := d_low d; d_high := n; d_min := d_min d; d_max := d_max d |})))
+      need_dice fr w (with_pop fr (fun v fr1 => with_int v fr1 w (fun n =>
+        upd_dice fr1 w (fun d => {| d_times := d_times d; d_keep := 4; d_low := d_low d; d_high := n; d_min := d_min d; d_max := d_max d |}))))
     | OpDiceSetMin =>
-      with_pop fr (fun v fr1 => with_int v fr1 w (fun n =>
-        upd_dice fr1 w (fun d => {| d_times := d_times d; d_keep := d_keep d; d_low := d_low d; d_high := d_high d; d_min := Some n; d_max := d_max d |})))
+      need_dice fr w (with_pop fr (fun v fr1 => with_int v fr1 w (fun n =>
+        upd_dice fr1 w (fun d => {| d_times := d_times d; d_keep := d_keep d; d_low := d_low d; d_high := d_high d; d_min := Some n; d_max := d_max d |}))))
     | OpDiceSetMax =>
-      with_pop fr (fun v fr1 => with_int v fr1 w (fun n =>
-        upd_dice fr1 w (fun d => {| d_times := d_times d; d_keep := d_keep d; d_low := d_low d; d_high := d_high d; d_min := d_min d; d_max := Some n |})))
+      need_dice fr w (with_pop fr (fun v fr1 => with_int v fr1 w (fun n =>
+        upd_dice fr1 w (fun d => {| d_times := d_times d; d_keep := d_keep d; d_low := d_low d; d_high := d_high d; d_min := d_min d; d_max := Some n |}))))
     | OpMarkDetail =>
       match o with
       | OSpan b e => SNext (mk (fr_set_details fr ((b, e) :: fr_details fr)) w)
@@ -1132,7 +1158,7 @@ Section Step.
       end
     | OpDice =>
       match fr_dice fr with
-      | [] => SPanic "diceStates index -1"
+      | [] => need_dice fr w (SPanic "unreachable")
       | d :: rest =>
         with_pop fr (fun v fr1 =>
           match v with
@@ -1218,7 +1244,7 @@ Section Step.
       else SNext (mk (fr_set_blocks fr (fr_top fr :: fr_blocks fr) (fr_fblocks fr)) w)
     | OpBlockPop =>
       match fr_blocks fr with
-      | [] => SPanic "blockStack index -1"
+      | [] => SFail EOther (mk (err_invalid fr) w)            (* blockIndex <= 0: errInvalidCode(); return *)
       | newTop :: rest =>
         match set_top fr newTop with
         | None => SUnsup "uninit slot"
@@ -1231,7 +1257,7 @@ Section Step.
       else SNext (mk (fr_set_blocks fr (fr_blocks fr) (fr_top fr :: fr_fblocks fr)) w)
     | OpFstrPop =>
       match fr_fblocks fr with
-      | [] => SPanic "fstrBlockStack index -1"
+      | [] => SFail EOther (mk (err_invalid fr) w)            (* fstrBlockIndex <= 0 *)
       | newTop :: rest =>
         let fin (v : value) (fr1 : frame) :=
             match set_top fr1 newTop with
@@ -1281,11 +1307,13 @@ Fixpoint exec (fuel : nat) (E : env) (m : machine) : result :=
   | O => OutOfFuel
   | S f =>
     let fr := m_fr m in
-    if zlen (fr_code fr) <=? fr_pc fr then Fin m            (* for opIndex < e.codeIndex *)
+    if zlen (fr_code fr) <=? fr_pc fr then                  (* for opIndex < e.codeIndex *)
+      match fr_err fr with Some e => Fail e m | None => Fin m end
     else
       let '(m1, over) := count_op E m in                     (* numOpCountAdd(1) *)
       if over then Fail EBudget m1
-      else if fr_top fr =? stack_size then Fail EStack m1
+      else match fr_err fr with Some e => Fail e m1 | None =>
+      if fr_top fr =? stack_size then Fail EStack m1
       else if fr_pc fr <? 0 then Panic "code index negative"
       else match nth_error (fr_code fr) (Z.to_nat (fr_pc fr)) with
            | None => Panic "code index out of range"
@@ -1295,15 +1323,12 @@ Fixpoint exec (fuel : nat) (E : env) (m : machine) : result :=
              | SNext m2 => exec f E (next m2)
              | SStop m2 => Fin m2
              | SFail e m2 => Fail e m2
-             | SFailLate e m2 =>
-               let m3 := next m2 in
-               if zlen (fr_code (m_fr m3)) <=? fr_pc (m_fr m3) then Fail e m3
-               else let '(m4, over) := count_op E m3 in Fail (if over then EBudget else e) m4
              | SPanic s => Panic s
              | SFuel => OutOfFuel
              | SUnsup s => Unsupported s
              end
            end
+      end
   end.
 
 (* ------------------------------------------------------------------ Parse's resets + RunAfterParsed *)
